@@ -1,4 +1,5 @@
 import SsoSpec.Lemmas.Proxy
+import Generated.Facts
 
 /-!
 # C01 — complete mediation
@@ -180,6 +181,30 @@ theorem C01_cross_host_session_rejected (lower : Bytes → Bytes) (P : Policy) (
   rcases C01_forward_sound lower P now r (.opens s) a id h with ⟨hw', _⟩ | ⟨_, s', hc, _, h2, _⟩
   · simp [hw] at hw'
   · cases hc; exact hh h2
+
+/-! ### Tie to the source (T1) -/
+
+/-- the model's route table is the one `OAuthProxy.Handler` registers: every path except the six fixed ones goes to `Proxy` -/
+theorem C01_routes :
+    Sso.Generated.proxyRoutes =
+      [("/favicon.ico", "p.Favicon"), ("/robots.txt", "p.RobotsTxt"), ("/oauth2/v1/certs", "p.Certs"), ("/oauth2/sign_out", "p.SignOut"),
+       ("/oauth2/callback", "p.OAuthCallback"), ("/oauth2/auth", "p.AuthenticateOnly"), ("prefix:/", "p.Proxy")] ∧
+    (∀ r ∈ Sso.Generated.proxyRoutes, r.1.startsWith "prefix:" = false → "p." ++ handlerOf r.1 = r.2) := by
+  constructor
+  · decide
+  · intro r hr
+    simp only [Sso.Generated.proxyRoutes, List.mem_cons, List.not_mem_nil, or_false] at hr
+    rcases hr with rfl | rfl | rfl | rfl | rfl | rfl | rfl <;> simp [handlerOf] <;> decide
+
+/-- `Proxy`'s error switch: exactly the five restart-the-flow errors, 403, 401, and 500 for everything else; the
+middleware order of `Handler` (https upgrade inside header overrides inside security headers). -/
+theorem C01_skeleton_Proxy : Sso.Generated.skel_proxy_Proxy =
+    ["call:NewLogEntry", "call:Now", "call:IsWhitelistedRequest", "if{", "call:append", "}", "else{", "call:append", "call:Authenticate", "}",
+     "if{", "switch{", "case http.ErrNoCookie{", "call:OAuthStart", "return", "}", "case ErrLifetimeExpired{", "call:OAuthStart", "return", "}",
+     "case ErrWrongIdentityProvider{", "call:OAuthStart", "return", "}", "case ErrUnauthorizedUpstreamRequested{", "call:OAuthStart", "return", "}",
+     "case sessions.ErrInvalidSession{", "call:OAuthStart", "return", "}", "case ErrUserNotAuthorized{", "call:append", "call:Incr", "call:ErrorPage", "return", "}",
+     "case providers.ErrTokenRevoked{", "call:ErrorPage", "return", "}", "default{", "call:Error", "call:append", "call:Incr", "call:ErrorPage", "return", "}",
+     "}", "}", "call:Now", "call:Sub", "call:Timing", "call:ServeHTTP"] := by decide
 
 /-! ### Non-vacuity -/
 
